@@ -99,8 +99,16 @@ def descB (n d : Name) : Bool := properPrefix (splitOn '/' n) (splitOn '/' d)
 /-- A clean name: no empty segment, no `.` segment (hence not absolute, not empty). -/
 def cleanB (n : Name) : Bool := (splitOn '/' n).all fun c => !(c == []) && !(c == ['.'])
 
-def CleanNames (names : List Name) : Prop := ∀ n ∈ names, cleanB n = true
-def cleanNamesB (names : List Name) : Bool := names.all cleanB
+/-- A clean name, possibly followed by ONE trailing `/` (a last, empty segment). The default
+taxonomy produces such names: `flow/exception/catch/\1` expands to `flow/exception/catch/` when the
+optional group does not take part in the match (`except MyError:`, bare `except:`). -/
+def cleanTB (n : Name) : Bool :=
+  cleanB n || (match n.reverse with
+    | '/' :: r => cleanB r.reverse
+    | _ => false)
+
+def CleanNames (names : List Name) : Prop := ∀ n ∈ names, cleanTB n = true
+def cleanNamesB (names : List Name) : Bool := names.all cleanTB
 
 /-- Strictly increasing for the code-point lexicographic order (what `sorted(acc.items())` yields:
 the keys of a dict are distinct). -/
